@@ -103,3 +103,222 @@ Proof.
     first [apply adv_spec | apply skip_more_spec | apply is_first_spec | apply range_done_spec | apply crl_specs
           | apply end_of_spec | apply first_cut_spec; assumption | apply last_cut_spec; assumption | reflexivity].
 Qed.
+
+(* ------------------------------------------------------------------ the decision in closed form, for every request *)
+(* what make_conditional answers when no range is served, in specification vocabulary; no guard: every combination
+   of If-None-Match / If-Match / If-Modified-Since / ETag / Last-Modified is covered, so a deviation inside a class
+   that a _partial theorem excludes still contradicts this one *)
+Definition decide_spec (pd : str -> option Z) (env : environ) (st0 : N) (etag lm : option str) : res mc_outcome :=
+  if str_truthy etag then
+    inm <- parse_etags (q_if_none_match env) ;;
+    im <- parse_etags (q_if_match env) ;;
+    let t := current_tag etag in
+    let unmodified := if etags_truthy im then negb (admits im t)
+                      else if etags_truthy inm then weak_match inm t else date_matches pd env lm in
+    Ok (MCResp (if unmodified then (if etags_truthy im then 412 else 304) else st0) None)
+  else if date_matches pd env lm then
+    im <- parse_etags (q_if_match env) ;; Ok (MCResp (if etags_truthy im then 412 else 304) None)
+  else Ok (MCResp st0 None).
+
+Lemma decide_exact pd env st0 etag lm : decide pd env st0 etag lm = decide_spec pd env st0 etag lm.
+Proof.
+  unfold decide, decide_spec. rewrite irm_env_true. destruct (str_truthy etag).
+  - destruct (parse_etags (q_if_none_match env)) as [inm|]; cbn [bind]; [|reflexivity].
+    destruct (parse_etags (q_if_match env)) as [im|] eqn:Eim; cbn [bind]; [|reflexivity].
+    rewrite contains_is_admits, contains_weak_is_weak_match.
+    destruct (if etags_truthy im then negb (admits im (current_tag etag))
+              else if etags_truthy inm then weak_match inm (current_tag etag) else date_matches pd env lm);
+      cbn [negb bind]; [|reflexivity]. destruct (etags_truthy im); reflexivity.
+  - destruct (date_matches pd env lm); cbn [negb bind]; [|reflexivity].
+    destruct (parse_etags (q_if_match env)) as [im|]; cbn [bind]; [|reflexivity]. destruct (etags_truthy im); reflexivity.
+Qed.
+
+(* make_conditional as a whole *)
+Lemma make_conditional_exact pd env st0 etag lm acc cl :
+  make_conditional pd env st0 etag lm acc cl =
+  if cond_method env then
+    skip <- range_request_skipped pd env etag lm acc cl ;;
+    if skip then decide_spec pd env st0 etag lm
+    else
+      parsed <- parse_range_header (q_range env) ;;
+      match parsed with
+      | None => Ok (MC416 cl)
+      | Some r => match rfl_spec r cl, cl with
+                  | Some (Some s, Some e), Some L => served s e L acc
+                  | _, _ => Ok (MC416 cl)
+                  end
+      end
+  else Ok (MCResp st0 None).
+Proof.
+  rewrite mc_unfold. destruct (cond_method env); [|reflexivity]. unfold process_range_request.
+  destruct (range_request_skipped pd env etag lm acc cl) as [[|]|]; cbn [bind]; [apply decide_exact| |reflexivity].
+  destruct (parse_range_header (q_range env)) as [[r|]|]; cbn [bind]; try reflexivity.
+  unfold to_content_range_header. rewrite rfl_correct. cbn [bind].
+  destruct (rfl_spec r cl) as [[a b]|] eqn:E; [|reflexivity].
+  destruct (rfl_spec_shape _ _ _ _ E) as (L & s & e & -> & -> & -> & _ & _ & Hu).
+  cbn [sub_ arith2 bind fmt_pint]. unfold served, content_range_text. rewrite Hu. destruct acc; reflexivity.
+Qed.
+
+(* the If-Range decision in closed form, for every request that carries If-Range and Range: this is what the code
+   does, known deviations included (other validators step in when If-Range is a date or cannot be compared) *)
+Definition if_range_effective (pd : str -> option Z) (env : environ) (etag lm : option str) : res bool :=
+  let i := parse_if_range_header pd (q_if_range env) in
+  let ms := match ifr_date i with Some d => Some d | None => parse_date_opt pd (q_if_modified_since env) end in
+  let u0 := date_match ms (lm_norm pd (lm_of_header lm)) in
+  if str_truthy etag then
+    match ifr_etag i with
+    | Some e => Ok (ostr_eqb (Some e) (current_tag etag))
+    | None =>
+      inm <- parse_etags (q_if_none_match env) ;;
+      im <- parse_etags (q_if_match env) ;;
+      Ok (if etags_truthy im then negb (admits im (current_tag etag))
+          else if etags_truthy inm then weak_match inm (current_tag etag) else u0)
+    end
+  else Ok u0.
+
+Lemma if_range_exact pd env etag lm v rg :
+  q_if_range env = Some v -> q_range env = Some rg ->
+  is_range_request_processable pd env etag lm = if_range_effective pd env etag lm.
+Proof.
+  intros Hv Hr. unfold is_range_request_processable, is_resource_modified_env, if_range_effective.
+  rewrite Hv, Hr. cbn [is_none is_some or_ and_ bind]. rewrite irm_correct. unfold irm_spec. cbn [negb andb is_some is_none].
+  destruct (parse_if_range_header pd (Some v)) as [[e|] [d|]]; cbn [ifr_date ifr_etag];
+    destruct (str_truthy etag); cbn [bind not_ negb and_].
+  all: try (destruct (parse_etags (q_if_none_match env)) as [inm|]; cbn [bind]; [|reflexivity]).
+  all: try (destruct (parse_etags (q_if_match env)) as [im|]; cbn [bind]; [|reflexivity]).
+  all: rewrite ?contains_is_admits, ?contains_weak_is_weak_match; unfold current_tag; cbn [and_ not_ bind].
+  all: repeat match goal with
+       | |- context [admits ?a ?b] => destruct (admits a b)
+       | |- context [weak_match ?a ?b] => destruct (weak_match a b)
+       | |- context [ostr_eqb ?a ?b] => destruct (ostr_eqb a b)
+       | |- context [date_match ?a ?b] => destruct (date_match a b)
+       | |- context [etags_truthy ?a] => destruct (etags_truthy a)
+       end; reflexivity.
+Qed.
+
+(* where the guard of C11_if_range_failed_partial holds, the effective decision is the specified one *)
+Lemma if_range_effective_when_decides pd env etag lm :
+  if_range_decides pd env etag = true -> q_if_range env <> None ->
+  if_range_effective pd env etag lm = Ok (if_range_matches false pd env etag lm).
+Proof.
+  unfold if_range_decides, if_range_effective, if_range_matches. intros Hd Hv.
+  apply andb_prop in Hd. destruct Hd as [Hd H3]. apply andb_prop in Hd. destruct Hd as [H1 H2].
+  destruct (q_if_none_match env); [discriminate|]. destruct (q_if_match env); [discriminate|].
+  destruct (q_if_range env) as [v|]; [|congruence].
+  destruct (parse_if_range_header pd (Some v)) as [[e|] [d|]] eqn:Ep; cbn [ifr_date ifr_etag is_some is_none negb orb andb] in *.
+  - exfalso. exact (pih_not_both _ _ _ _ Ep).
+  - destruct (str_truthy etag); cbn [andb].
+    + rewrite andb_true_r. reflexivity.
+    + rewrite orb_false_r in H3. destruct (q_if_modified_since env); [discriminate|]. reflexivity.
+  - destruct (str_truthy etag); cbn [parse_etags mk_etags bind etags_truthy e_star e_strong e_weak nonempty_l orb]; reflexivity.
+  - rewrite !orb_false_r in H3. destruct (q_if_modified_since env); [discriminate|].
+    destruct (str_truthy etag); cbn [parse_etags mk_etags bind etags_truthy e_star e_strong e_weak nonempty_l orb parse_date_opt date_match];
+      reflexivity.
+Qed.
+
+(* ------------------------------------------------------------------ every conjunct of the guards is needed *)
+Definition t_e : str := [34; 34].
+(* each witness: If-Range does not match (lenient), exactly one conjunct of if_range_decides fails, and a 206 is served *)
+Lemma if_range_guard_needed :
+  (* If-None-Match present *)
+  (exists pd env etag lm p,
+     q_if_match env = None /\ q_if_modified_since env = None /\ q_if_none_match env <> None /\
+     if_range_matches false pd env etag lm = false /\
+     make_conditional pd env 200 etag lm ATrue (Some 4%Z) = Ok (MCResp 206 (Some p)))
+  (* If-Match present *)
+  /\ (exists pd env etag lm p,
+     q_if_none_match env = None /\ q_if_modified_since env = None /\ q_if_match env <> None /\
+     if_range_matches false pd env etag lm = false /\
+     make_conditional pd env 200 etag lm ATrue (Some 4%Z) = Ok (MCResp 206 (Some p)))
+  (* If-Modified-Since present, entity-tag If-Range, response without ETag *)
+  /\ (exists pd env etag lm p,
+     q_if_none_match env = None /\ q_if_match env = None /\ etag = None /\
+     ifr_etag (parse_if_range_header pd (q_if_range env)) <> None /\
+     if_range_matches false pd env etag lm = false /\
+     make_conditional pd env 200 etag lm ATrue (Some 4%Z) = Ok (MCResp 206 (Some p)))
+  (* If-Modified-Since present, empty If-Range *)
+  /\ (exists pd env etag lm p,
+     q_if_none_match env = None /\ q_if_match env = None /\ q_if_range env = Some [] /\
+     if_range_matches false pd env etag lm = false /\
+     make_conditional pd env 200 etag lm ATrue (Some 4%Z) = Ok (MCResp 206 (Some p))).
+Proof.
+  split; [|split; [|split]].
+  - exists pd12, (mk_env (S_ r_0_1) (S_ [49]) None (S_ t_abc) None), (S_ t_abc), (S_ [50]). eexists.
+    repeat split; try discriminate; vm_compute; reflexivity.
+  - exists pd12, (mk_env (S_ r_0_1) (S_ [49]) None None (S_ t_zzz)), (S_ t_abc), (S_ [50]). eexists.
+    repeat split; try discriminate; vm_compute; reflexivity.
+  - exists pd12, (mk_env (S_ r_0_1) (S_ t_abc) (S_ [50]) None None), None, (S_ [49]). eexists.
+    repeat split; try discriminate; vm_compute; reflexivity.
+  - exists pd12, (mk_env (S_ r_0_1) (S_ []) (S_ [50]) None None), None, (S_ [49]). eexists.
+    repeat split; try discriminate; vm_compute; reflexivity.
+Qed.
+
+(* both conjuncts of the guard of C11_304_complete_partial are needed, each alone *)
+Lemma complete_304_guard_needed :
+  (exists pd env etag lm acc cl p,
+     cond_method env = true /\ validators_match pd env etag lm = Ok true /\
+     parse_etags (q_if_match env) = Ok (mk_etags [] [] false) /\
+     range_request_skipped pd env etag lm acc cl = Ok false /\
+     make_conditional pd env 200 etag lm acc cl = Ok (MCResp 206 (Some p)))
+  /\ (exists pd env etag lm acc cl im,
+     cond_method env = true /\ validators_match pd env etag lm = Ok true /\
+     range_request_skipped pd env etag lm acc cl = Ok true /\
+     parse_etags (q_if_match env) = Ok im /\ etags_truthy im = true /\
+     make_conditional pd env 200 etag lm acc cl = Ok (MCResp 200 None)).
+Proof.
+  split.
+  - exists pd0, (mk_env (S_ r_0_1) None None (S_ t_abc) None), (S_ t_abc), None, ATrue, (Some 4%Z). eexists.
+    repeat split; vm_compute; reflexivity.
+  - exists pd12, (mk_env None None (S_ [50]) None (S_ t_abc)), (S_ t_abc), (S_ [49]), AFalse, (Some 4%Z). eexists.
+    repeat split; vm_compute; reflexivity.
+Qed.
+
+(* ------------------------------------------------------------------ headers around the status *)
+Lemma skipped_false_length pd env etag lm acc cl :
+  range_request_skipped pd env etag lm acc cl = Ok false -> exists L, cl = Some L /\ L <> 0%Z.
+Proof.
+  unfold range_request_skipped. destruct (accept_truthy acc); cbn [not_ or_ bind negb]; [|discriminate].
+  destruct cl as [L|]; cbn [is_none or_ bind]; [|discriminate]. cbn [eq_ bind pint_eqb].
+  destruct (Z.eqb_spec L 0); cbn [or_ bind]; [discriminate|]. intros _. exists L. split; [reflexivity|assumption].
+Qed.
+
+(* a 416 always carries Content-Range: bytes */<complete length> *)
+Lemma c416_content_range pd env st0 etag lm acc cl l :
+  make_conditional pd env st0 etag lm acc cl = Ok (MC416 l) ->
+  exists L, l = Some L /\ L <> 0%Z /\ content_range_416 l = Some (s_bytes ++ SP :: STAR :: SLASH :: dec_Z L).
+Proof.
+  intro H. apply cond_416 in H. destruct H as (_ & Hs & -> & _).
+  destruct (skipped_false_length _ _ _ _ _ _ Hs) as (L & -> & HL). exists L. repeat split; assumption.
+Qed.
+
+Definition hn (l : list N) : str := l.
+(* on 304 the WSGI header list loses exactly the entity headers of the regenerated table, except Expires and
+   Content-Location; the validators and everything else stay *)
+Lemma headers_304 :
+  forallb (fun n => negb (wsgi_header_kept 304 n))
+    [hn [67; 111; 110; 116; 101; 110; 116; 45; 76; 101; 110; 103; 116; 104];        (* Content-Length *)
+     hn [67; 111; 110; 116; 101; 110; 116; 45; 84; 121; 112; 101];                  (* Content-Type *)
+     hn [67; 111; 110; 116; 101; 110; 116; 45; 82; 97; 110; 103; 101];              (* Content-Range *)
+     hn [67; 111; 110; 116; 101; 110; 116; 45; 69; 110; 99; 111; 100; 105; 110; 103]; (* Content-Encoding *)
+     hn [67; 111; 110; 116; 101; 110; 116; 45; 76; 97; 110; 103; 117; 97; 103; 101]; (* Content-Language *)
+     hn [67; 111; 110; 116; 101; 110; 116; 45; 77; 68; 53];                         (* Content-MD5 *)
+     hn [76; 97; 115; 116; 45; 77; 111; 100; 105; 102; 105; 101; 100];              (* Last-Modified *)
+     hn [65; 108; 108; 111; 119]] = true                                            (* Allow *)
+  /\ forallb (wsgi_header_kept 304)
+    [hn [69; 84; 97; 103]; hn [68; 97; 116; 101]; hn [69; 120; 112; 105; 114; 101; 115];   (* ETag Date Expires *)
+     hn [67; 111; 110; 116; 101; 110; 116; 45; 76; 111; 99; 97; 116; 105; 111; 110];        (* Content-Location *)
+     hn [67; 97; 99; 104; 101; 45; 67; 111; 110; 116; 114; 111; 108]; hn [86; 97; 114; 121]; (* Cache-Control Vary *)
+     hn [65; 99; 99; 101; 112; 116; 45; 82; 97; 110; 103; 101; 115]] = true                  (* Accept-Ranges *)
+  /\ (forall st n, st <> 304 -> 200 <= st -> st <> 204 -> wsgi_header_kept st n = true)
+  /\ (forall n, wsgi_header_kept 304 n = true <->
+        (existsb (list_eqb (lower n)) entity_headers = false \/ existsb (list_eqb (lower n)) entity_allowed = true)).
+Proof.
+  split; [vm_compute; reflexivity|]. split; [vm_compute; reflexivity|]. split.
+  - intros st n H1 H2 H3. unfold wsgi_header_kept.
+    replace ((100 <=? st) && (st <? 200) || (st =? 204)) with false by lia.
+    replace (st =? 304) with false by lia. reflexivity.
+  - intro n. unfold wsgi_header_kept. cbn [N.leb N.ltb N.eqb Pos.eqb andb orb].
+    change ((100 <=? 304) && (304 <? 200) || (304 =? 204)) with false. cbv iota.
+    change (304 =? 304) with true. cbv iota.
+    destruct (existsb (list_eqb (lower n)) entity_headers), (existsb (list_eqb (lower n)) entity_allowed); cbn; intuition discriminate.
+Qed.
